@@ -1,4 +1,5 @@
 import HyperModel.Proofs.MempoolHist
+import HyperModel.Proofs.MempoolSpec
 /-!
 # C23 — the mempool keeps its bounds and ordering under any operation sequence
 
@@ -217,6 +218,76 @@ theorem finish_respects_limits (u : ID → Item) (a b : Nat) (ops : List Op) (hw
       rw [if_neg hn, if_neg hn, List.append_nil, Nat.add_zero]
       exact ⟨f1, rfl, rfl, acc1, hs1, hq1⟩
 
+/-! ## History level: the mempool refines the list spec `Spec/MempoolQueue.lean` -/
+
+/-- items handed out by one operation (`popNext`, `stream`, `top`), read off its answer -/
+def handedOf : Op → Out → List Item
+  | .popNext, .item (some v) => [v]
+  | .stream _, .items l => l
+  | .top _, .topOut vis _ => vis
+  | _, _ => []
+
+/-- the whole hand-out sequence of a history -/
+def handedSeq : List Op → List Out → List Item
+  | op :: ops, o :: os => handedOf op o ++ handedSeq ops os
+  | _, _ => []
+
+/-- **handout_order_eq_spec** (history level). For every op sequence from `New` (only hypothesis: an ID
+identifies its item), the implementation model and the abstract list spec — `add` appends accepted new
+items at the back; `finishStreaming`/`top` give-backs are pushed to the front, ending up in reverse
+give-back order before everything else; `popNext`/`peekNext`/`stream`/`prepareStream`/`top` take
+from the front; `remove`/`setMinTimestamp` delete wherever the item is — stay in the same abstract
+state (queue content *and order*, `streamedItems`, prefetch, stream lock, limits), and every answer
+along the history is the spec's answer (`TraceRel`: equal, except that `setMinTimestamp`'s list is
+the spec's `queue.filter (expiry < t)` up to permutation — this is `expire_exact` at history level).
+Hence the sequence of items handed out over the whole history is exactly the spec's: arrival order,
+give-backs first. -/
+theorem handout_order_eq_spec (u : ID → Item) (a b : Nat) (ops : List Op) (hw : WFOps u ops) :
+    abs ((State.init a b).run ops) = (Spec.init a b).run ops ∧
+    TraceRel ops ((State.init a b).trace ops) ((Spec.init a b).trace ops) ∧
+    handedSeq ops ((State.init a b).trace ops) = handedSeq ops ((Spec.init a b).trace ops) := by
+  obtain ⟨h1, h2⟩ := run_abs (u := u) ops (State.init a b) (MInv.init u a b) hw
+  have e : abs (State.init a b) = Spec.init a b := rfl
+  rw [e] at h1 h2
+  refine ⟨h1, h2, ?_⟩
+  -- equal answers give equal hand-outs
+  have key : ∀ (ops : List Op) (os os' : List Out), TraceRel ops os os' → handedSeq ops os = handedSeq ops os' := by
+    intro ops
+    induction ops with
+    | nil => intro os os' _; cases os <;> cases os' <;> rfl
+    | cons op rest ih =>
+      intro os os' h
+      cases os with
+      | nil => cases os' <;> simp [TraceRel] at h
+      | cons o os =>
+        cases os' with
+        | nil => simp [TraceRel] at h
+        | cons o' os' =>
+          obtain ⟨hr, ht⟩ := h
+          simp only [handedSeq]
+          rw [ih os os' ht]
+          congr 1
+          cases op <;> first
+            | (obtain ⟨l, l', rfl, rfl, _⟩ := hr; rfl)
+            | (have : o = o' := hr; rw [this])
+  exact key ops _ _ h2
+
+/-- **expire_exact** at history level: after any history, `setMinTimestamp t` answers (as a set, each
+item once) exactly the items of the *spec* queue of that history with expiry `< t`, and the spec queue
+afterwards is the rest in order. -/
+theorem expire_exact_history (u : ID → Item) (a b : Nat) (ops : List Op) (hw : WFOps u ops) (t : Int) :
+    let s := (State.init a b).run ops
+    let sp := (Spec.init a b).run ops
+    (s.setMinTimestamp t).2.Perm (sp.q.filter (fun x => decide (x.expiry < t))) ∧
+    (s.setMinTimestamp t).1.queue = sp.q.filter (fun x => !decide (x.expiry < t)) := by
+  intro s sp
+  have hq : sp.q = s.queue := by
+    have := (handout_order_eq_spec u a b ops hw).1
+    show ((Spec.init a b).run ops).q = _
+    rw [← this]; rfl
+  rw [hq]
+  exact expire_exact u a b ops hw t
+
 /-! ## Non-vacuity: the hypotheses are satisfiable and the limits are really reached -/
 
 private def u0 : ID → Item := fun i => ⟨i, i % 2, 1, 5⟩
@@ -235,4 +306,12 @@ example : ProtoOps (State.init 4 4) [.add [u0 1, u0 2], .startStreaming, .stream
 example : ((State.init 2 2).run [.add [u0 1, u0 2, u0 3]]).queue.map (·.id) = [1, 2] := by decide
 example : ((State.init 4 4).run [.add [u0 1, u0 2], .startStreaming, .stream 1, .add [u0 1]]).queue.map (·.id) = [2] := by
   decide
+/-- the spec is not trivial: give-backs come back in front, in reverse give-back order, and the
+hand-out sequence of this history is 1, 2, then (after the give-back) 2 -/
+example : ((Spec.init 4 4).run [.add [u0 1, u0 2, u0 3], .startStreaming, .stream 2,
+    .finishStreaming [u0 1, u0 2]]).q.map (·.id) = [2, 1, 3] := by decide +kernel
+example : (handedSeq [.add [u0 1, u0 2], .startStreaming, .stream 2, .finishStreaming [u0 1, u0 2], .popNext]
+    ((Spec.init 4 4).trace [.add [u0 1, u0 2], .startStreaming, .stream 2, .finishStreaming [u0 1, u0 2], .popNext])).map (·.id)
+    = [1, 2, 2] := by decide +kernel
+
 end HyperModel.Props.C23
